@@ -39,6 +39,10 @@ static bool is_dict_size_valid(size_t size)
 	if (x == 0)
 		return true;
 
+	/* more than two bits set: not the sum of two powers of two */
+	if ((x & (x - 1)) != 0)
+		return false;
+
 	return size == (x | (x >> 1));
 }
 
